@@ -3,13 +3,18 @@
 run the quick check(s) with each applied to /repo (restoring /repo afterwards) and record what was reported."""
 import json, os, shutil, subprocess, sys, re
 pid = sys.argv[1]
-checks = sys.argv[2:] or [pid]
+rnd = "a"
+args = sys.argv[2:]
+if args and args[0].startswith("--round="):
+    rnd = args[0].split("=")[1]; args = args[1:]
+checks = args or [pid]
 ROOT = "/verif"
 for k in (1, 2, 3):
-    src = "/tmp/s/%sa/out/%d" % (pid, k)
+    src = "/tmp/s/%s%s/out/%d" % (pid, rnd, k)
     if not os.path.exists(os.path.join(src, "meta.json")):
         print(pid, k, "missing"); continue
-    dst = os.path.join(ROOT, "seeded", pid, "%s-%d" % (pid, k))
+    tag = "%d" % k if rnd == "a" else "%s%d" % (rnd, k)
+    dst = os.path.join(ROOT, "seeded", pid, "%s-%s" % (pid, tag))
     os.makedirs(dst, exist_ok=True)
     for f in ("patch.diff", "demo_test.go.txt", "meta.json"):
         shutil.copy(os.path.join(src, f), os.path.join(dst, f))
@@ -36,6 +41,6 @@ for k in (1, 2, 3):
     caught = [c for c, r in results.items() if r["exit"] == 1 and r["violations"]]
     meta["checks_run"] = results
     meta["result"] = ("caught by " + ", ".join(caught)) if caught else "MISSED by " + ", ".join(checks)
-    meta["ran"] = "git -C /repo apply seeded/%s/%s-%d/patch.diff; ./check <id> --tier quick; git -C /repo checkout -- ." % (pid, pid, k)
+    meta["ran"] = "git -C /repo apply seeded/%s/%s-%s/patch.diff; ./check <id> --tier quick; git -C /repo checkout -- ." % (pid, pid, tag)
     json.dump(meta, open(os.path.join(dst, "meta.json"), "w"), indent=1)
-    print("%s-%d: %s | files: %s | %s" % (pid, k, meta["result"], " ".join(files.split()[:1]), "; ".join(d[:110] for r in results.values() for d in r["what"][:1])))
+    print("%s-%s: %s | files: %s | %s" % (pid, tag, meta["result"], " ".join(files.split()[:1]), "; ".join(d[:110] for r in results.values() for d in r["what"][:1])))
